@@ -30,8 +30,17 @@ RULE = ('history = 2-14 generated operations, mostly update_one / update_many / 
         'compared with the Lean model (outcome, full documents): an accepted unknown operator or '
         '$addToSet clause is reported directly; and, '
         'where the independent reference semantics commits to an answer, with the reference; '
-        '8% of the updates use the positional operator (filter with $elemMatch, path f.$.x; outside '
-        'the Lean model, judged on python only): every update_many over >= 2 matches is compared '
+        '10% of the operations use the positional operator $ (gen_update.PositionalGen: paths f.$.x, '
+        'f.$, f.$.c.y, f.$.l.$, d.$, $[] / $[id], through $set $unset $inc $min $max $pop '
+        '$currentDate $setOnInsert $push $addToSet $pull $pullAll, one or two positional keys, next '
+        'to non-positional operators; filters constraining the array by one dotted condition, by '
+        '$elemMatch, by several conditions, only through other fields, inside $and / $or, by a '
+        'negation, through a key sharing a prefix, or by nothing that matches; through update_one / '
+        'update_many / find_one_and_update / bulk_write, 8% as upserts): compared with the Lean '
+        'model (MongoModel.applyOpsPos) and, on python, with the rule of the positional operator '
+        '(refupdate.resolve_positional: first element satisfying the query\'s condition on the '
+        'array, else an error) - a departure is filed under its deviation class; '
+        'every update_many over >= 2 matches is compared '
         'with one update_one per matched document on a twin collection; '
         '10% of the operations are a $push with $each and any subset of $position / $sort / $slice '
         '(bounds around the length of the array) onto arrays of 0-5 numbers or of sub-documents '
@@ -43,15 +52,37 @@ RULE = ('history = 2-14 generated operations, mostly update_one / update_many / 
         'operator; distinct = by hash of the history')
 ASSUMPTIONS = [
     'the reference semantics declines (no verdict) on conflicting paths, type-confused targets, '
-    'positional paths, $pull with conditions, $rename onto itself; these cases are covered by the '
+    '$pull with conditions, $rename onto itself; these cases are covered by the '
     'model correspondence only',
+    'positional paths: the reference resolves $ by the rule of the MongoDB manual for ONE condition '
+    'on the array (dotted, $elemMatch, or on the elements as values); it declines where the manual '
+    'leaves the position open (several conditions on one array outside $elemMatch, conditions '
+    'inside $and/$or/$nor, negations, nested arrays, $[] / $[id]); outside the Lean model '
+    '(`unmodelled`, judged on python only): a container carried over to a key under another '
+    'top-level field or from $push/$addToSet/$pullAll/$pull, keys behind `f.$` in one operator '
+    'document, a path starting with $, two $ in an array-operator path',
     'field order is not part of what the reference compares',
 ]
 
 known_labels = {e['id'] for e in common.load_known(ID) if e.get('status') == 'known'}
 
 
+POSITIONAL_KINDS = {}
+POSITIONAL_JUDGED = {}      # verdicts of the positional rule on python's steps (evidence)
+
+
+def _pj(k):
+    POSITIONAL_JUDGED[k] = POSITIONAL_JUDGED.get(k, 0) + 1
+
+
 class Gen02(hist.HistGen):
+    def pg(self):
+        if not hasattr(self, '_pg'):
+            import gen_update
+            self._pg = gen_update.PositionalGen(self.r)
+            self._pg.kinds = POSITIONAL_KINDS      # one histogram for the whole run (evidence)
+        return self._pg
+
     def history(self, n):
         ops = [self.op() for _ in range(n)]
         return ops
@@ -59,27 +90,15 @@ class Gen02(hist.HistGen):
     def op(self):
         r = self.r
         x = r.random()
-        if x < 0.05:
-            # documents with an array of sub-documents under one field
-            f = r.choice(['a', 'b'])
-            ds = [{f: [{'k': r.choice([1, 2, 3]), 'v': r.choice([0, 5, 'x'])}
-                       for _ in range(r.choice([1, 2, 3]))], 'c': r.choice([1, 2])}
-                  for _ in range(r.choice([2, 3]))]
+        if x < 0.05 or (x < 0.17 and not getattr(self, 'posf', None)):
+            # documents with arrays of sub-documents / scalars for the positional operator (always
+            # there before the first positional update of a history)
+            ds, self.posf = self.pg().docs()
             self.shadow.extend(copy.deepcopy(ds))
             return ['insert_many', ds, True]
         if x < 0.13:
-            # the positional operator: the element the filter's $elemMatch selects
-            f = r.choice(['a', 'b'])
-            k = r.choice([1, 2, 3])
-            filt = {f: {'$elemMatch': {'k': k}}}
-            if r.random() < 0.3:
-                filt['c'] = r.choice([1, 2])
-            u = r.choice([{'$set': {f + '.$.v': r.choice([7, 'y', None])}},
-                          {'$inc': {f + '.$.k': r.choice([1, 10])}},
-                          {'$unset': {f + '.$.v': ''}},
-                          {'$set': {f + '.$': {'k': 9, 'v': 9}}},
-                          {'$min': {f + '.$.k': 0}, '$set': {'c': 5}}])
-            return [r.choice(['update_many', 'update_many', 'update_one']), filt, u, False]
+            # the positional operator: filter shapes x operators x entry points (gen_update)
+            return self.pg().ops(self.posf)
         if x < 0.17:
             # documents with an array the $push modifiers can reorder and cut: numbers, or
             # sub-documents ranked by k, several elements, not in order
@@ -181,7 +200,8 @@ def singles_twin(runner, op, ids):
 
 
 def pre_probe(runner, op):
-    if op[0] not in ('update_one', 'update_many', 'replace_one'):
+    if op[0] not in ('update_one', 'update_many', 'replace_one') and not (
+            op[0] == 'find_one_and_update' and refupdate.positional_paths(op[2])):
         return None
     try:
         ids = [d['_id'] for d in runner.coll.find(copy.deepcopy(op[1]))]
@@ -215,6 +235,7 @@ def oracle(history, steps):
             break
         k = st.op[0]
         pre = (st.extra or {}).get('pre')
+        positional_judge(i, st, prev, docs, pre, fails)
         if k in ('update_one', 'update_many') and st.out[0] == 'val' and isinstance(st.op[2], dict):
             # what must be refused: an unknown $operator (whether or not anything matches), and
             # a clause next to $each in $addToSet once the update is applied to a document
@@ -290,6 +311,69 @@ def oracle(history, steps):
         if any(l not in known_labels for (_, l, _) in fails) or len(fails) > 50:
             break
     return fails
+
+
+def positional_judge(i, st, prev, docs, pre, fails):
+    """the rule of the positional operator (refupdate.resolve_positional) on the documents the
+    filter selected: an update the rule refuses must raise, one it accepts must leave exactly the
+    documents the rule gives; a departure is filed under the deviation class the update falls in
+    (refupdate.positional_class), or under `positional-result` when it falls in none"""
+    k = st.op[0]
+    if k not in ('update_one', 'update_many', 'find_one_and_update') or \
+            not isinstance(st.op[1], dict) or not refupdate.positional_paths(st.op[2]):
+        return
+    if not pre or 'error' in pre or pre['size'] != len(prev) or \
+            any(j < 0 for j in pre['matched']):
+        return
+    if k == 'find_one_and_update' and (st.op[4] is not None or st.op[3] is not None):
+        return
+    upsert = st.op[5] if k == 'find_one_and_update' else st.op[3]
+    filt = histcheck.canon_value(st.op[1], st.oids)
+    spec = histcheck.canon_value(st.op[2], st.oids)
+    matched = pre['matched'] if k == 'update_many' else pre['matched'][:1]
+    if not matched:
+        if upsert and st.out[0] != 'err' and len(docs) == len(prev) + 1 and not any(
+                op == '$rename' for op, _ in refupdate.positional_paths(spec)):
+            fails.append((i, 'positional-upsert', '%s %r %r upserted %r: a positional path on an '
+                          'upsert is an error' % (k, st.op[1], st.op[2], docs[-1])))
+        return
+    exps = []
+    for j in matched:
+        try:
+            exps.append(('doc', refupdate.apply(prev[j], spec, False, filt=filt)))
+        except refupdate.RuleError as e:
+            exps.append(('error', str(e)))
+        except Exception:  # pylint: disable=broad-except
+            _pj('rule declines (no verdict)')
+            return
+    label = refupdate.positional_class(k, filt, spec, False) or 'positional-result'
+    n0 = len(fails)
+    try:
+        _positional_compare(i, st, k, prev, docs, matched, exps, label, fails)
+    finally:
+        _pj('departs from the rule' if len(fails) > n0 else
+            ('agrees: error' if st.out[0] == 'err' else 'agrees: same documents'))
+
+
+def _positional_compare(i, st, k, prev, docs, matched, exps, label, fails):
+    if st.out[0] == 'err':
+        if all(e[0] == 'doc' for e in exps):
+            fails.append((i, label, '%s %r %r raised %s; the rule of the positional operator gives '
+                          '%r' % (k, st.op[1], st.op[2], st.out[1], [e[1] for e in exps])))
+        return
+    if len(docs) != len(prev):
+        return
+    for j, e in zip(matched, exps):
+        if e[0] == 'error':
+            fails.append((i, label, '%s %r %r was accepted on %r (now %r); the rule of the '
+                          'positional operator makes it an error: %s'
+                          % (k, st.op[1], st.op[2], prev[j], docs[j], e[1])))
+            return
+        if not refupdate.same_doc(e[1], docs[j]):
+            fails.append((i, label, '%s %r %r on %r gave %r; the rule of the positional operator '
+                          '(first element satisfying the query\'s condition on the array) gives %r'
+                          % (k, st.op[1], st.op[2], prev[j], docs[j], e[1])))
+            return
 
 
 UPDATER_OPS = ('$set', '$unset', '$inc', '$min', '$max', '$pop', '$currentDate', '$setOnInsert')
@@ -428,6 +512,8 @@ def run(ctx, proof, driver_ok):
     cov['per_server_version'] = {'5.0.5': cov5['stats'], '4.4.0': cov4['stats']}
     cov['python_error_kinds_server_4_4'] = cov4['python_error_kinds']
     cov['fixed_witnesses_replayed'] = nfixed
+    cov['positional_generator_histogram'] = dict(POSITIONAL_KINDS)
+    cov['positional_rule_verdicts_on_python'] = dict(POSITIONAL_JUDGED)
     return cov
 
 
